@@ -68,8 +68,9 @@ func (txEngine) Generate(prop string, r *simrt.RNG, tier string, run int) *simrt
 	// The block cache is a tuning knob; the replay protection must not depend on
 	// it being larger than the height-bound window.
 	sc.Knobs["cache"] = []int64{1, 2, 3, 128, 128}[r.Intn(5)]
+	sc.Knobs["qi"] = int64(r.Intn(3))
 	// clean restarts: replay protection that lives in memory is rebuilt from disk
-	if r.Chance(1, 3) {
+	if r.Chance(1, 3) || sc.Knobs["qi"] == 2 {
 		for k, m := 0, r.Range(1, 2); k < m; k++ {
 			at := r.Range(len(sc.Ops)/3, len(sc.Ops))
 			sc.Ops = append(sc.Ops[:at:at], append([]simrt.Op{{K: "restart"}}, sc.Ops[at:]...)...)
@@ -131,7 +132,13 @@ func (txEngine) run(ctx *simrt.Ctx) *simrt.Violation {
 	// (> 1e9) can lie in the past; nothing is running yet, so this is free
 	time.Sleep(3 * 365 * 24 * time.Hour)
 	gtime := time.Now().Unix() - 3600
+	// qi: 0 the transaction quick index stays off, 1 on from the start, 2 switched
+	// on at the first restart (the one-off index migration runs then)
+	quick := sc.Knob("qi", 0) == 1
 	edit := func(s string) string {
+		if !quick {
+			s = replaceOnce(s, "enableTxQuickIndex=true", "enableTxQuickIndex=false")
+		}
 		s = replaceOnce(s, "defCacheSize=128", fmt.Sprintf("defCacheSize=%d", sc.Knob("cache", 128)))
 		return replaceOnce(s, "[blockchain]", fmt.Sprintf("[blockchain]\nhighAllowPackHeight=%d\nlowAllowPackHeight=%d", high, low))
 	}
@@ -336,10 +343,19 @@ func (txEngine) run(ctx *simrt.Ctx) *simrt.Violation {
 			time.Sleep(time.Second)
 			simrt.Settle()
 			tipBefore := lastHash(sut)
+			var tipTxs []*types.Transaction
+			if d, err := sut.Chain.GetBlock(sut.Chain.GetBlockHeight()); err == nil {
+				tipTxs = d.Block.Txs
+			}
 			disk := sut.Disk
 			sut.Close()
 			simrt.Settle()
 			nrestart++
+			upgraded := false
+			if sc.Knob("qi", 0) == 2 && !quick {
+				quick, upgraded = true, true
+				ctx.Fault("quick_index_enabled_at_restart")
+			}
 			sut = simnode.New(simnode.Opts{ID: fmt.Sprintf("sut-%s-r%d", uid, nrestart), Disk: disk, GenesisTime: gtime, EditToml: edit})
 			simrt.Settle()
 			time.Sleep(2 * time.Second)
@@ -348,6 +364,26 @@ func (txEngine) run(ctx *simrt.Ctx) *simrt.Violation {
 			if string(lastHash(sut)) != string(tipBefore) {
 				// the producer may have added a block of pooled transactions meanwhile; the scan judges it
 				ctx.Probe("tip_moved_across_restart")
+			}
+			if upgraded && len(tipTxs) > 0 {
+				// right after the index migration: the transactions of the block that was
+				// the tip come again (to the pool, then inside a peer block)
+				for _, tx := range tipTxs {
+					_, err := sut.API.SendTx(types.Clone(tx).(*types.Transaction))
+					ctx.Logf("replay of a tip-block tx %x after the index upgrade -> %v", tx.Hash()[:4], err)
+				}
+				simrt.Settle()
+				adopt()
+				if tip := tipBuilt(); tip != nil {
+					nextID++
+					if b := w.BuildRaw(nextID, tip.ID, 0, maxI64(1, time.Now().Unix()-tip.Block.BlockTime), []*types.Transaction{types.Clone(tipTxs[0]).(*types.Transaction)}); b != nil {
+						Deliver(sut, b.Block, 0, "peerA")
+					}
+				}
+				ctx.Probe("offered_bad")
+				ctx.Probe("replay_after_index_upgrade")
+				time.Sleep(3 * time.Second)
+				simrt.Settle()
 			}
 		case "edgereplay":
 			adopt()
